@@ -7,6 +7,7 @@ With all cells concrete the same code is an ordinary (tiny) SQL interpreter;
 that mode is differentially validated against SQLite (engine/tv.py).
 """
 import datetime
+import os
 import operator
 
 import sqlalchemy as sa
@@ -1140,11 +1141,19 @@ class SymSession:
                     self._overflow()
             elif isinstance(v, SymNum):
                 t = to_z3(v)
-                if t.sort() != z3.IntSort() or t.get_id() in seen:
+                # keyed by the printed term: AST ids are reused after
+                # garbage collection and differ between re-executions, which
+                # would change the sequence of forks of a path
+                key = t.sexpr()
+                if t.sort() != z3.IntSort() or key in seen:
                     continue
                 if fork(z3.Or(t >= 2 ** 63, t < -2 ** 63)):
+                    if os.environ.get('VERIF_DEBUG_OVERFLOW'):
+                        import sys
+                        sys.stderr.write('OVERFLOW-TERM %s in %s\n' % (
+                            z3.simplify(t), str(stmt)[:80].replace(chr(10), ' ')))
                     self._overflow()
-                seen.add(t.get_id())
+                seen.add(key)
 
     def _overflow(self):
         from oslo_db import exception as db_exc
